@@ -3,7 +3,7 @@
    micro part: Reify.v (model of micro/reify.go and micro.Run), proofs in ReifySpec.v.
    gomini part (rewrite): the section at the end, over the term encoding of Go values (GVal.v). *)
 From Coq Require Import List NArith ZArith Bool.
-From GMK Require Import Term Unify UnifyWf UnifyTotal Goal Stream Reify ReifySpec.
+From GMK Require Import Term Unify UnifyWf UnifyTotal Goal Stream Reify ReifySpec GoLite gen.MicroGen MicroGenSpec.
 Import ListNotations.
 
 (* the reified answer is the query with all bindings applied (no bound variable remains) and the k-th distinct
@@ -42,6 +42,19 @@ Print Assumptions C08_run.
 Theorem C08_run_no_leak : forall ds uf f n g outs, run ds uf f n g = Some outs -> Forall (fun t => vars t = []) outs.
 Proof. exact run_no_leak. Qed.
 Print Assumptions C08_run_no_leak.
+
+(* the code itself: walkStar, reifys and reifyS as translated from micro/walk.go and micro/reify.go on every run are the
+   model's walkstar and reifys (of which reify_var - ReifyIntVarFromState - is the composition), and never panic *)
+Theorem C08_code_is_model : forall f v s,
+  g_walkStar f v s = of_opt (walkstar f v s) /\ g_reifys f v s = of_opt (reifys f v s) /\ g_reifyS f v = of_opt (reifys f v []).
+Proof. exact (fun f v s => conj (g_walkStar_spec f v s) (conj (g_reifys_spec f v s) (g_reifyS_spec f v))). Qed.
+Print Assumptions C08_code_is_model.
+
+(* ReifyIntVarFromState(q)(st) = walkStar(walkStar(q, st), reifyS(walkStar(q, st))) over the generated functions *)
+Theorem C08_code_reify_var : forall f q st,
+  bind (g_walkStar f (TVar q) (sub st)) (fun vv => bind (g_reifyS f vv) (fun r => g_walkStar f vv r)) = of_opt (reify_var f q st).
+Proof. exact code_reify_var. Qed.
+Print Assumptions C08_code_reify_var.
 
 (* Caveat made explicit by the model: reified names are ordinary symbols _k, so an answer that already contains the
    user symbol _0 is indistinguishable from one with an unbound variable there (ReifySpec.rename_first_occ_collision).
